@@ -17,6 +17,7 @@ pub fn bucket_order(n: usize) {
     let p = vs::u8();
     vs::assume(p < 6);
     let perm: [usize; 3] = match p { 0 => [0, 1, 2], 1 => [0, 2, 1], 2 => [1, 0, 2], 3 => [1, 2, 0], 4 => [2, 0, 1], _ => [2, 1, 0] };
+    crate::vs::streams_reset();
     let (x, y) = if n == 2 {
         vs::assume(p < 2);
         let q = if p == 0 { [d[0], d[1]] } else { [d[1], d[0]] };
@@ -24,7 +25,8 @@ pub fn bucket_order(n: usize) {
     } else {
         (MerkleNode::from_digests(&d), MerkleNode::from_digests(&[d[perm[0]], d[perm[1]], d[perm[2]]]))
     };
-    vcheck!(x.hash == y.hash, "digest:bucket hash depends on the order the keys are folded");
+    let same_hash = if vs::NATIVE { x.hash == y.hash } else { vs::streams_equal(0, 1) };
+    vcheck!(same_hash, "digest:bucket hash depends on the order the keys are folded");
     vcheck!(x.count == y.count && x.max_timestamp == y.max_timestamp, "digest:bucket count/max stamp depend on order");
     vcover!(p != 0, "a non-identity permutation");
 }
@@ -109,7 +111,8 @@ pub fn key_digest_sound(kind: u8) {
     let same_digest = if vs::NATIVE { da == db } else { vs::streams_equal(1, 3) && da.timestamp == db.timestamp };
     let same_obs = opt_sds_eq(a.get(), b.get()) && a.is_tombstone() == b.is_tombstone() && a.timestamp == b.timestamp
         && a.expiry_ms == b.expiry_ms
-        && opt_sds_eq(a.hash_get("f"), b.hash_get("f"));
+        && opt_sds_eq(a.hash_get("f"), b.hash_get("f"))
+        && a.get_hash().and_then(|h| h.get("f")).map(|l| (l.timestamp, l.tombstone)) == b.get_hash().and_then(|h| h.get("f")).map(|l| (l.timestamp, l.tombstone));
     vcheck!(!same_digest || same_obs, "digest:different values share a digest (false 'in sync')");
     vcheck!(!same_obs || same_digest, "digest:equal values have different digests (perpetual 'divergent')");
     vcover!(same_digest, "equal digests reachable");
